@@ -6,6 +6,8 @@ C10, wave 6 — structured autocovariance sequences: ZERO reflection coefficient
 non-zero — including sequences with a vanishing intermediate partial correlation.  Made explicit here, about the same
 model text (`Model/C10.lean: ldStep / ldLoop / arLD`):
 
+* `ld_source_runs_every_pass` — the side condition: the source's `while p <= order` loop has no `break` / `continue` /
+  `return` / `raise`, no conditional, and counts `p` up by one (GENERATED from `AR_est_LD`, `decide`).
 * `ld_step_of_kappa_zero` — the abstract recursion: a step with `κ_p = 0` leaves every coefficient and the error power as
   they were.
 * `ld_zero_reflection_step` — the model's loop body: if the numerator `rxx[p] − Σ w[i]·rxx[p−i]` vanishes, the pass appends
@@ -20,6 +22,9 @@ open Finset ComplexConjugate
 open Nitime.AR Nitime.C10
 
 namespace Nitime.C10.Props
+
+/-- **generated side condition.** The Levinson–Durbin loop of `AR_est_LD` performs every pass `p = 2..order`. -/
+theorem ld_source_runs_every_pass : ldLoopRunsEveryPass = true := by decide
 
 /-- **a zero reflection coefficient is an ordinary step** (abstract recursion) -/
 theorem ld_step_of_kappa_zero (r : ℕ → ℂ) (p : ℕ) (s : LD.St) (hsupp : ∀ i, (i = 0 ∨ p ≤ i) → s.a i = 0)
